@@ -225,8 +225,13 @@ REFACTORINGS = [
     ('refactoring R12: 30 modules rewritten at once (4000-line patch: internals renamed, inlined, split, moved between modules)', 'refactor_r12', ALL),
     # third wave
     ('refactoring R13: rename package - recursion to explicit stacks, isinstance chains to dispatch tables walked by MRO, classes split into mixins, private attributes renamed', 'refactor_r13', ALL),
+    ('refactoring R14: minify() as a table of (option, stage factory) pairs run by a loop, suite filters by delegation to a SuiteFilter walker, exception whitelist as a version table', 'refactor_r14', ALL),
     ('refactoring R15: printers - token separation as a table, precedence levels as a table with one binds_looser predicate, operator visitors generated from tables, shared base class for nested literals, private attributes renamed', 'refactor_r15', ALL),
     ('refactoring R16: command line module - parser built from tables, os.walk replaced by os.scandir, per-file processing in a class, streams through variables', 'refactor_r16', ALL),
+    # R17: C11 (a generator yields in set order onto an explicit stack of iterators) and C12 (an attribute name of the ast module looked up through a TypeTable
+    # object) end as UNDECIDED - exit 2, not a violation - on this one; the other fifteen properties are decided
+    ('refactoring R17: support modules - recursion to explicit stacks of resumable iterators, TypeTable look-up objects instead of isinstance chains, plan generators in the mapper', 'refactor_r17',
+     [p_ for p_ in ALL if p_ not in ('C11', 'C12')]),
 ]
 
 
